@@ -1440,16 +1440,21 @@ VARIANTS = [
      "old": "    elif node.args and \"Concatenate\" in node.args[0]:",
      "new": "    elif node.args and node.args[0].startswith(\"Concatenate[\"):"},
     # R5.10
-    {"name": "typeddict-gains-closed-keyword-everywhere-but-printer", "rule": "R5.10",
+    {"name": "revert-D23-unbounded-split", "rule": "R5.9", "file": PRINTER, "expect": "fire",
+     "old": "        name, typ = c.split(\": \", 1)", "new": "        name, typ = c.split(\": \")"},
+    {"name": "revert-D24-concatenate-substring", "rule": "R5.9", "file": PRINTER, "expect": "fire",
+     "old": "    elif node.args and isinstance(self.old_node.args[0], pytd.Concatenate):",
+     "new": "    elif node.args and \"Concatenate\" in node.args[0]:"},
+    {"name": "revert-D25-functional-form-drops-keywords", "rule": "R5.10", "file": PRINTER,
      "expect": "fire",
+     "old": "        args = \", \".join([f\"'{node.name}'\", fields] + keywords)\n        return f\"{node.name} = TypedDict({args})\"",
+     "new": "        return f\"{node.name} = TypedDict('{node.name}', {fields})\""},
+    {"name": "twin-typeddict-gains-closed-keyword-everywhere", "rule": "R5.10",
+     "expect": "silent",
      "edits": [
          (OUTPUT, "      keywords.append((\"total\", pytd.Literal(False)))",
           "      keywords.append((\"total\", pytd.Literal(False)))\n      keywords.append((\"closed\", pytd.Literal(True)))"),
          (CLASSDEF, "    if keyword not in (\"metaclass\", \"total\"):",
           "    if keyword not in (\"metaclass\", \"total\", \"closed\"):"),
          (DEFS, "      if k.arg != \"total\":", "      if k.arg not in (\"total\", \"closed\"):")]},
-    {"name": "twin-functional-form-prints-keywords", "rule": "R5.10", "file": PRINTER,
-     "expect": "silent",
-     "old": "        return f\"{node.name} = TypedDict('{node.name}', {fields})\"",
-     "new": "        kws = \"\".join(f\", {k}={v}\" for k, v in node.keywords)\n        return f\"{node.name} = TypedDict('{node.name}', {fields}{kws})\""},
 ]
